@@ -20,6 +20,8 @@ def run_batch(ctx, case):
     fx = os.path.join(d, "fx")
     os.makedirs(fx)
     open(os.path.join(fx, "present.txt"), "w").write("line1\nline2 é\n")
+    if not os.path.lexists(os.path.join(fx, "link-to-present.txt")):
+        os.symlink("present.txt", os.path.join(fx, "link-to-present.txt"))
     open(os.path.join(fx, "empty.txt"), "w").close()
     log = os.path.join(d, "apps.log")
     r = core.run([h, "check", str(case["seed"]), str(case["count"]), log, fx], cwd=d, env=core.scratch_env(), timeout=1200)
